@@ -1,8 +1,7 @@
 /-
   C03 — round trip at the level of whole objects, for objects whose set
-  attributes are scalars (`C03_roundtrip_scalars`).  List attributes and nested
-  containers on the decode side remain with the correspondence and the direct
-  oracle (`C03_roundtrip_statement` in C03.lean is the full statement).
+  attributes are scalars (`C03_roundtrip_scalars`) or lists of plain values
+  (`C03_roundtrip_flat`).  Nested containers: C03Nested.lean.
 -/
 import DV.Proofs.TypedAssign
 namespace DV
